@@ -74,6 +74,7 @@ pub fn gen_case(family: &str, i: u64, seed: u64, lim: &GenLimits) -> StaticCase 
         "er-small" => gen::random_er(&mut rng, 1, 6),
         "union" => gen::union_family(&mut rng, 12),
         "layered" => gen::layered_family(&mut rng, 13),
+        "many-components" => gen::many_components(&mut rng),
         "lattice" => {
             let g = gen::lattice(&mut rng, 9);
             gen::shuffle_labels(&g, &mut rng)
